@@ -40,6 +40,8 @@ def run(ck: Check) -> int:
     from pytezos.michelson.instructions.crypto import PairingCheckInstruction
     from pytezos.michelson.types import BLS12_381_FrType, BLS12_381_G1Type, BLS12_381_G2Type
 
+    from props.C21_P import run_P
+    run_P(ck)
     for T in (BLS12_381_G1Type, BLS12_381_G2Type):
         ck.function(T.from_point)
         ck.function(T.to_point)
@@ -91,7 +93,10 @@ def run(ck: Check) -> int:
                     if seen[key] <= 1:
                         ck.violation(r['oid'], r['info'], case=dict(case, oid=r['oid']), replay=REPLAY, wclass=r['wclass'])
     ck.exhaustive = False
-    return ck.finish('exploration',
+    return ck.finish('other',
+                     'P (props/C21_P.py, real ASTs, py_ecc through uninterpreted functions): Fr ADD/MUL/NEG/INT are the Z/rZ operations with canonical '
+                     'results for all scalars; G1/G2 encode/decode are mutual inverses incl. the reserved infinity encoding; ADD/MUL/NEG on points = '
+                     'enc∘library op∘dec with the right operands; S: PAIRING_CHECK for lists of 0..3 pairs is true iff the product of pairing(G2, G1) is one. '
                      'R (bounded, real types and instruction classes): encodings incl. infinity, group laws and field laws '
                      'against the scalar model, PAIRING_CHECK against sum a_i*b_i = 0 mod r. Curve arithmetic of py_ecc '
                      'is an assumed contract.')
